@@ -328,11 +328,30 @@ def run(tier, seed):
         "exhaustive_note": ("every schedule within the stated deviation bound of every listed configuration was run" if not capped else
                             "some configurations hit their execution cap (listed in caps_hit); below the cap the DFS order covers all schedules with fewer deviations first"),
         "caps_hit": capped, "configurations": len(items), "executions_by_bound": by_bound, "termination_statuses": statuses,
-        "samples": [items[0][0], items[len(items) // 2][0], items[-1][0]],
+        "samples": sample_executions(items),
     }
     res.assumptions = ["thread switches happen only at scheduling points (never inside a source line)", "firmware model: oracles/firmware.py (Marlin-style); corruption = set of job-line transmission indices",
                        "serial read time-outs and sleeps are modelled as yields; time-outs of Event.wait never fire"]
     return res
+
+
+def sample_executions(plan_items):
+    """Two executions written out: the default schedule of a faulty configuration and one of its one-deviation neighbours."""
+    out = []
+    pick = [p for p in plan_items if p[1] >= 1][:1] or plan_items[:1]
+    for cfg, bound, cap in pick:
+        for prefix in ([], None):
+            if prefix is None:
+                ex0, _, _ = run_execution(cfg, [])
+                tr = ex0.S.trace
+                i = next((i for i in range(len(tr) // 2, len(tr)) if tr[i][1] > 1), None)
+                if i is None:
+                    continue
+                prefix = [c for c, _, _ in tr[:i]] + [1]
+            ex, marks, _ = run_execution(cfg, prefix)
+            out.append({"cfg": cfg, "schedule_prefix_nondefault_choices": [(i, c) for i, c in enumerate(prefix) if c], "choice_points": len(ex.S.trace),
+                        "status": ex.S.status, "wire": [list(x) for x in ex.dev.log][:40]})
+    return out
 
 
 def replay(body):
